@@ -1,0 +1,36 @@
+//! Verification hooks (only compiled with `--features verif`).
+//!
+//! A thread-local step counter bumped once per file visited while collecting the sources of
+//! a root file and once per include statement followed by the indexer. With a budget set,
+//! exceeding it panics with a fixed message, so that a traversal that does not terminate on
+//! an include cycle becomes a deterministic failure.
+use std::cell::Cell;
+
+pub const BUDGET_EXCEEDED: &str = "verif: include traversal budget exceeded";
+
+thread_local! {
+    static STEPS: Cell<u64> = const { Cell::new(0) };
+    static BUDGET: Cell<u64> = const { Cell::new(u64::MAX) };
+}
+
+pub fn reset(budget: u64) {
+    STEPS.with(|s| s.set(0));
+    BUDGET.with(|b| b.set(budget));
+}
+
+pub fn steps() -> u64 {
+    STEPS.with(|s| s.get())
+}
+
+#[inline]
+pub(crate) fn step() {
+    let n = STEPS.with(|s| {
+        let n = s.get() + 1;
+        s.set(n);
+        n
+    });
+    if n > BUDGET.with(|b| b.get()) {
+        BUDGET.with(|b| b.set(u64::MAX));
+        panic!("{}", BUDGET_EXCEEDED);
+    }
+}
